@@ -205,6 +205,18 @@ pub fn run(f: &mut impl std::io::Write, rng: &mut crate::Rng, big: bool) {
         let d: Vec<u8> = (0..n).map(|_| if ascii { 0x20 + (rng.next() % 0x5f) as u8 } else { (rng.next() % 256) as u8 }).collect();
         case(f, &d);
     }
+    // valid UTF-8 with multi-byte characters: the str / String / borrowed-str entry points must
+    // deliver the UTF-8 bytes (random bytes are almost never valid UTF-8 beyond ASCII)
+    let chars: [char; 14] = ['a', '\0', '"', '\u{7f}', '\u{80}', '\u{e9}', '\u{ff}', '\u{100}', '\u{7ff}', '\u{800}', '\u{20ac}', '\u{ffff}', '\u{10000}', '\u{10ffff}'];
+    for &c in &chars {
+        let mut b = [0u8; 4];
+        case(f, c.encode_utf8(&mut b).as_bytes());
+    }
+    for _ in 0..(if big { 2000 } else { 150 }) {
+        let n = (rng.next() % 12) as usize;
+        let st: String = (0..n).map(|_| chars[(rng.next() % chars.len() as u64) as usize]).collect();
+        case(f, st.as_bytes());
+    }
     // sequences around the 4096-element pre-allocation cap of visit_seq
     for n in [4095usize, 4096, 4097, 5000] {
         let d: Vec<u8> = (0..n).map(|i| (i % 251) as u8).collect();
